@@ -90,6 +90,37 @@ def fhash(path):
     return h
 
 
+_ROOTS = None
+
+
+def known_roots():
+    """(old prefix, current prefix) pairs: repository, build and harness roots this build directory has been used with, so
+    that a copied build directory keeps working for another checkout / location."""
+    global _ROOTS
+    if _ROOTS is None:
+        p = os.path.join(BUILD_ROOT, "repo_roots.txt")
+        cur = {"repo": REPO, "build": BUILD_ROOT, "verif": VERIF}
+        seen = []
+        if os.path.exists(p):
+            for l in open(p):
+                parts = l.split()
+                if len(parts) == 2:
+                    seen.append((parts[0], parts[1]))
+                elif len(parts) == 1:
+                    seen.append(("repo", parts[0]))
+        changed = False
+        for k, v in cur.items():
+            if (k, v) not in seen:
+                seen.append((k, v))
+                changed = True
+        if changed:
+            os.makedirs(BUILD_ROOT, exist_ok=True)
+            with open(p, "w") as f:
+                f.write("".join(f"{k} {v}\n" for k, v in seen))
+        _ROOTS = sorted(((v, cur[k]) for k, v in seen if v != cur[k]), key=lambda x: -len(x[0]))
+    return _ROOTS
+
+
 def parse_dep(depfile):
     try:
         txt = open(depfile).read()
@@ -97,17 +128,35 @@ def parse_dep(depfile):
         return None
     txt = txt.replace("\\\n", " ")
     _, _, rest = txt.partition(":")
-    return [d for d in shlex.split(rest) if d]
+    out = []
+    for d in shlex.split(rest):
+        if not d:
+            continue
+        for old, new in known_roots():
+            if d.startswith(old + "/"):
+                d = new + d[len(old):]
+                break
+        out.append(d)
+    return out
+
+
+def _norm(path):
+    """Paths are recorded relative to the repository / build roots so that a copied build directory stays valid for
+    another checkout of the same content (scratch worktrees)."""
+    for root, tag in sorted(((BUILD_ROOT, "$BUILD"), (REPO, "$REPO"), (VERIF, "$VERIF")), key=lambda x: -len(x[0])):
+        if path.startswith(root):
+            return tag + path[len(root):]
+    return path
 
 
 def signature(flags, src, deps):
     h = hashlib.sha1()
-    h.update(" ".join(flags).encode())
+    h.update(" ".join(_norm(f[2:]) if f.startswith("-I") else _norm(f) for f in flags).encode())
     h.update(fhash(src).encode())
-    for d in sorted(set(deps)):
+    for d in sorted(set(os.path.normpath(x) for x in deps)):
         if d.startswith("/usr/") or d.startswith(SP):
             continue  # toolchain and installed third-party headers are fixed in the sandbox
-        h.update(d.encode())
+        h.update(_norm(d).encode())
         h.update(fhash(d).encode())
     return h.hexdigest()
 
